@@ -95,7 +95,13 @@ enum AOp {
 
 /// run one local operation on the real `ShardReplicaState` of node `i`, emit its `L` line;
 /// returns the index of the delta it issued
-fn a_local(out: &mut Out, nodes: &mut [ShardReplicaState], sent: &mut Vec<Msg>, text: &mut String, i: usize, key: &str, op: AOp) -> Option<usize> {
+fn a_local(out: &mut Out, nodes: &mut [ShardReplicaState], sent: &mut Vec<Msg>, log: &mut BTreeSet<(usize, usize)>, early: &mut BTreeSet<usize>, text: &mut String, i: usize, key: &str, op: AOp) -> Option<usize> {
+    // a node that writes while it lacks a delta it issued itself (it restarted empty and has not got
+    // its history back) may re-use a stamp: C08's stated limitation, not C06's claim
+    if sent.iter().enumerate().any(|(idx, m)| m.origin == i && !log.contains(&(i, idx))) {
+        early.insert(i);
+        out.count("a:write-before-own-recovery");
+    }
     let hk = hex(key.as_bytes());
     let (line, delta): (String, Option<ReplicationDelta>) = match op {
         AOp::W(v, exp) => {
@@ -134,6 +140,8 @@ fn a_local(out: &mut Out, nodes: &mut [ShardReplicaState], sent: &mut Vec<Msg>, 
     out.op(line, ans);
     delta.map(|d| {
         sent.push(Msg { origin: i, key: key.to_string(), delta: d });
+        // a node has absorbed what it issued (until it restarts empty)
+        log.insert((i, sent.len() - 1));
         sent.len() - 1
     })
 }
@@ -154,7 +162,9 @@ fn part_a(out: &mut Out, rng: &mut Rng, corpus: Option<u8>) {
     let mut nodes: Vec<ShardReplicaState> =
         (0..n).map(|i| ShardReplicaState::new(ReplicaId::new(i as u64 + 1), level)).collect();
     let mut sent: Vec<Msg> = Vec::new();
-    let mut log: BTreeSet<(usize, usize)> = BTreeSet::new(); // (node, msg idx) applied
+    let mut log: BTreeSet<(usize, usize)> = BTreeSet::new(); // (node, msg idx) absorbed since the node's last restart
+    let mut early: BTreeSet<usize> = BTreeSet::new(); // nodes that wrote before they had their own history back
+    let mut restarts = 0u32;
     out.op(format!("INIT {} {}", n, causal as u8), "ok".into());
     let mut text = String::new();
     // which keys may change type in this history (cross-kind) and may carry expiry
@@ -175,6 +185,8 @@ fn part_a(out: &mut Out, rng: &mut Rng, corpus: Option<u8>) {
         Some(1) => vec![(0, 1, "k"), (0, 0, "k")],
         // concurrent first writes of two kinds with EQUAL Lamport time: node 0 SET h, node 1 HSET h
         Some(2) => vec![(0, 0, "h"), (1, 3, "h")],
+        // seeded/C06-own-stamped-delta-skips-clock-update: three writes, restart + own deltas back, write
+        Some(5) => vec![(0, 0, "k"), (0, 0, "k"), (0, 0, "k")],
         _ => vec![],
     };
     let steps = if corpus.is_some() { script.len() as u64 } else if tie_open && tie_small { rng.range(2, 6) } else { rng.range(4, 40) };
@@ -192,6 +204,27 @@ fn part_a(out: &mut Out, rng: &mut Rng, corpus: Option<u8>) {
             if !sent.is_empty() {
                 deliver(out, &mut nodes, &sent, &mut log, j, idx, &mut text);
             }
+            continue;
+        } else if !tie_open && rng.chance(1, 25) && sent.iter().any(|m| key_kind.contains_key(&m.key)) {
+            // a node that has issued something crashes and comes back EMPTY; its own old deltas
+            // come back to it (WAL replay = apply_remote_deltas, a peer's redelivery); usually all
+            // of them before it writes again, sometimes not (then a stamp may repeat: C08's limit)
+            let cand: Vec<usize> = (0..n).filter(|i| sent.iter().any(|m| m.origin == *i)).collect();
+            let i = *rng.pick(&cand);
+            restart_node(out, &mut nodes, &mut log, i, level, &mut text);
+            restarts += 1;
+            let mut own: Vec<usize> = (0..sent.len()).filter(|idx| sent[*idx].origin == i).collect();
+            rng.shuffle(&mut own);
+            let full = rng.chance(3, 4);
+            for idx in &own {
+                if full || rng.chance(1, 2) {
+                    deliver(out, &mut nodes, &sent, &mut log, i, *idx, &mut text);
+                }
+            }
+            // … and at once writes a key it had written before
+            let key = sent[own[0]].key.clone();
+            let op = if key_kind.get(&key).copied().unwrap_or(0) == 0 { AOp::W(val(rng), None) } else { AOp::HW(vec![(rng.pick(&FIELDS).to_string(), val(rng))]) };
+            a_local(out, &mut nodes, &mut sent, &mut log, &mut early, &mut text, i, &key, op);
             continue;
         } else if rng.chance(2, 5) && !sent.is_empty() {
             // deliver something (maybe duplicate)
@@ -234,7 +267,7 @@ fn part_a(out: &mut Out, rng: &mut Rng, corpus: Option<u8>) {
             _ => vec![],
         };
         let was_hash = matches!(op, AOp::HW(_) | AOp::HD(_));
-        let idx = a_local(out, &mut nodes, &mut sent, &mut text, i, &key, op);
+        let idx = a_local(out, &mut nodes, &mut sent, &mut log, &mut early, &mut text, i, &key, op);
         // write-after-receive: the delta reaches another node, which at once writes one of the
         // registers it touched
         if let Some(idx) = idx {
@@ -250,7 +283,7 @@ fn part_a(out: &mut Out, rng: &mut Rng, corpus: Option<u8>) {
                 } else {
                     AOp::D
                 };
-                a_local(out, &mut nodes, &mut sent, &mut text, j, &key, op2);
+                a_local(out, &mut nodes, &mut sent, &mut log, &mut early, &mut text, j, &key, op2);
             }
         }
     }
@@ -259,11 +292,11 @@ fn part_a(out: &mut Out, rng: &mut Rng, corpus: Option<u8>) {
     if corpus == Some(3) || corpus == Some(4) {
         let (na, nb) = if corpus == Some(3) { (0, 1) } else { (1, 0) };
         let four: Vec<String> = FIELDS[..4].iter().map(|f| f.to_string()).collect();
-        let i0 = a_local(out, &mut nodes, &mut sent, &mut text, na, "h", AOp::HW(four.iter().map(|f| (f.clone(), b"1".to_vec())).collect())).unwrap();
+        let i0 = a_local(out, &mut nodes, &mut sent, &mut log, &mut early, &mut text, na, "h", AOp::HW(four.iter().map(|f| (f.clone(), b"1".to_vec())).collect())).unwrap();
         deliver(out, &mut nodes, &sent, &mut log, nb, i0, &mut text);
-        let i1 = a_local(out, &mut nodes, &mut sent, &mut text, na, "h", AOp::HD(four.clone())).unwrap();
+        let i1 = a_local(out, &mut nodes, &mut sent, &mut log, &mut early, &mut text, na, "h", AOp::HD(four.clone())).unwrap();
         deliver(out, &mut nodes, &sent, &mut log, nb, i1, &mut text);
-        let i2 = a_local(out, &mut nodes, &mut sent, &mut text, nb, "h", AOp::HW(vec![(four[3].clone(), b"z".to_vec())])).unwrap();
+        let i2 = a_local(out, &mut nodes, &mut sent, &mut log, &mut early, &mut text, nb, "h", AOp::HW(vec![(four[3].clone(), b"z".to_vec())])).unwrap();
         deliver(out, &mut nodes, &sent, &mut log, na, i2, &mut text);
         out.count("a:write-after-receive");
     }
@@ -272,6 +305,17 @@ fn part_a(out: &mut Out, rng: &mut Rng, corpus: Option<u8>) {
         for (j, idx) in [(1, 0), (1, 1), (1, 2), (2, 1), (2, 2), (2, 0)] {
             deliver(out, &mut nodes, &sent, &mut log, j, idx, &mut text);
         }
+    }
+    if corpus == Some(5) {
+        for idx in 0..3 {
+            deliver(out, &mut nodes, &sent, &mut log, 1, idx, &mut text);
+        }
+        restart_node(out, &mut nodes, &mut log, 0, level, &mut text);
+        restarts += 1;
+        for idx in 0..3 {
+            deliver(out, &mut nodes, &sent, &mut log, 0, idx, &mut text);
+        }
+        a_local(out, &mut nodes, &mut sent, &mut log, &mut early, &mut text, 0, "k", AOp::W(b"after-restart".to_vec(), None));
     }
     if corpus == Some(2) {
         for (j, idx) in [(1, 0), (0, 1), (1, 0), (2, 1), (2, 0), (2, 1)] {
@@ -284,7 +328,8 @@ fn part_a(out: &mut Out, rng: &mut Rng, corpus: Option<u8>) {
         let mut todo: Vec<(usize, usize)> = Vec::new();
         for (idx, m) in sent.iter().enumerate() {
             for j in 0..n {
-                if j != m.origin && !log.contains(&(j, idx)) {
+                let _ = m;
+                if !log.contains(&(j, idx)) {
                     todo.push((j, idx));
                 }
             }
@@ -309,7 +354,7 @@ fn part_a(out: &mut Out, rng: &mut Rng, corpus: Option<u8>) {
         let msgs: Vec<&Msg> = sent.iter().filter(|m| m.key == *key).collect();
         let delivered = msgs.iter().all(|m| {
             let idx_all: Vec<usize> = sent.iter().enumerate().filter(|(_, x)| x.key == *key && MRv::from_real(&x.delta.value) == MRv::from_real(&m.delta.value)).map(|(i, _)| i).collect();
-            (0..n).all(|j| j == m.origin || idx_all.iter().any(|idx| log.contains(&(j, *idx)) && sent[*idx].origin != j))
+            (0..n).all(|j| idx_all.iter().any(|idx| log.contains(&(j, *idx))))
         });
         let mvals: Vec<MRv> = msgs.iter().map(|m| MRv::from_real(&m.delta.value)).collect();
         let comp = compat(&mvals.iter().collect::<Vec<_>>());
@@ -329,6 +374,13 @@ fn part_a(out: &mut Out, rng: &mut Rng, corpus: Option<u8>) {
             if two {
                 // commutativity + idempotence suffice here (rs_converges_two_deltas): never a listed finding
                 out.violation("C06:rs-diverge:two-deltas", &format!("a key with at most two distinct deltas (kinds {:?}) was delivered everywhere, yet the replication states differ: {:?}", mvals.iter().map(|m| m.crdt.kind_name()).collect::<Vec<_>>(), vals.iter().map(|v| v.as_ref().map(|m| strip(m).show())).collect::<Vec<_>>()), replay);
+            } else if comp.is_none() && mvals.iter().map(|m| m.crdt.kind()).collect::<BTreeSet<u8>>().len() == 1 {
+                // one kind, yet a (slot, stamp) pair names two registers: a stamp was issued twice
+                if msgs.iter().any(|m| early.contains(&m.origin)) {
+                    out.count("a:excluded:stamp-reused-after-write-before-own-recovery");
+                } else {
+                    out.violation("C06:rs-diverge:stamp-reused", &format!("all deltas of a key delivered everywhere, one kind, every node recovered its own deltas before writing — yet one (register, stamp) pair carries two values and the replication states differ: {:?}", vals.iter().map(|v| v.as_ref().map(|m| strip(m).show())).collect::<Vec<_>>()), replay);
+                }
             } else if comp.is_some() {
                 out.violation("C06:rs-diverge:compatible-deltas", &format!("all deltas of a key delivered everywhere, one kind, consistent registers, yet replication states differ: {:?}", vals.iter().map(|v| v.as_ref().map(|m| strip(m).show())).collect::<Vec<_>>()), replay);
             } else {
@@ -345,16 +397,33 @@ fn part_a(out: &mut Out, rng: &mut Rng, corpus: Option<u8>) {
             }
         }
     }
+    if restarts > 0 {
+        out.count("a:history:with-restart");
+    }
     out.case(&text, nontrivial);
     out.sample(json!({"history": text}));
 }
 
+/// node `i` comes back empty: a fresh `ShardReplicaState` with the same replica id
+fn restart_node(out: &mut Out, nodes: &mut [ShardReplicaState], log: &mut BTreeSet<(usize, usize)>, i: usize, level: ConsistencyLevel, text: &mut String) {
+    out.count("a:restart");
+    nodes[i] = ShardReplicaState::new(ReplicaId::new(i as u64 + 1), level);
+    log.retain(|(j, _)| *j != i);
+    let l = format!("RESTART {}", i);
+    text.push_str(&l);
+    text.push(';');
+    out.op(l, "ok".into());
+}
+
 fn deliver(out: &mut Out, nodes: &mut [ShardReplicaState], sent: &[Msg], log: &mut BTreeSet<(usize, usize)>, j: usize, idx: usize, text: &mut String) {
     out.count("a:deliver");
-    if sent[idx].origin != j {
-        nodes[j].apply_remote_delta(sent[idx].delta.clone());
-        log.insert((j, idx));
+    // no origin check anywhere in the code: a node's own delta echoed back (peer redelivery,
+    // anti-entropy, WAL replay after a restart) is merged and advances the clock like any other
+    if sent[idx].origin == j {
+        out.count("a:deliver:own-delta-echoed");
     }
+    nodes[j].apply_remote_delta(sent[idx].delta.clone());
+    log.insert((j, idx));
     let l = format!("V {} {}", j, idx);
     text.push_str(&l);
     text.push(';');
@@ -569,6 +638,10 @@ struct GCl {
     /// nodes on which the per-node oracle already fired (report once per node)
     fired: BTreeSet<usize>,
     cmds: usize,
+    level: ConsistencyLevel,
+    /// nodes that accepted a write while they lacked a delta they had issued themselves
+    early: BTreeSet<usize>,
+    restarts: usize,
 }
 
 impl GCl {
@@ -583,6 +656,9 @@ impl GCl {
             bad: Vec::new(),
             fired: BTreeSet::new(),
             cmds: 0,
+            level,
+            early: BTreeSet::new(),
+            restarts: 0,
         }
     }
 
@@ -672,9 +748,14 @@ impl GCl {
             format!("GC {} {} ;; {}", i, enc, post.0),
             format!("{} | {} | sup={} delta={}", reply_text(&r, reply_order(&c)), post.0, sup, dtext),
         );
+        if !ds.is_empty() && self.sent.iter().enumerate().any(|(idx, m)| m.0 == i && !self.applied.contains(&(i, idx))) {
+            self.early.insert(i);
+            out.count("b:write-before-own-recovery");
+        }
         for d in ds {
             out.count("b:delta");
             self.sent.push((i, d));
+            self.applied.insert((i, self.sent.len() - 1));
         }
         self.check_served(out, i, &post.1).await;
         r
@@ -706,9 +787,22 @@ impl GCl {
         self.check_served(out, i, &post.1).await;
     }
 
+    /// the actor of node `i` crashes and is spawned again, empty, with the same replica id
+    async fn restart(&mut self, out: &mut Out, i: usize) {
+        self.hs[i].shutdown().await;
+        self.hs[i] = ReplicatedShardActor::spawn(ReplicaId::new(i as u64 + 1), self.level, 0);
+        self.applied.retain(|(j, _)| *j != i);
+        self.restarts += 1;
+        out.count("b:restart");
+        self.hist.push(format!("node{} restarts empty", i));
+        out.op(format!("GZ {}", i), "ok".into());
+    }
+
     async fn deliver(&mut self, out: &mut Out, j: usize, idx: usize) {
+        // (no origin check: the actor applies its own delta too — WAL replay after a restart,
+        // a peer's redelivery)
         if self.sent[idx].0 == j {
-            return;
+            out.count("b:deliver:own-delta-echoed");
         }
         let d = self.sent[idx].1.clone();
         self.hs[j].apply_remote_delta(d.clone());
@@ -771,7 +865,8 @@ impl GCl {
         let mut todo: Vec<(usize, usize)> = Vec::new();
         for (idx, (o, _)) in self.sent.iter().enumerate() {
             for j in 0..self.hs.len() {
-                if j != *o && !self.applied.contains(&(j, idx)) {
+                let _ = o;
+                if !self.applied.contains(&(j, idx)) {
                     todo.push((j, idx));
                 }
             }
@@ -822,7 +917,7 @@ impl GCl {
             let msgs: Vec<(usize, &(usize, ReplicationDelta))> = self.sent.iter().enumerate().filter(|(_, m)| m.1.key == *key).collect();
             let delivered = msgs.iter().all(|(_, m)| {
                 let mv = MRv::from_real(&m.1.value);
-                (0..n).all(|j| j == m.0 || msgs.iter().any(|(idx2, m2)| m2.0 != j && self.applied.contains(&(j, *idx2)) && MRv::from_real(&m2.1.value) == mv))
+                (0..n).all(|j| msgs.iter().any(|(idx2, m2)| self.applied.contains(&(j, *idx2)) && MRv::from_real(&m2.1.value) == mv))
             });
             let kinds: BTreeSet<u8> = msgs.iter().map(|(_, m)| MRv::from_real(&m.1.value).crdt.kind()).collect();
             let mut distinct: Vec<MRv> = Vec::new();
@@ -869,7 +964,13 @@ impl GCl {
                         None => ("C06:glue:set-without-expiry-cannot-clear-remote-ttl".to_string(), "expiry merged by max / Some-wins on the receiver, overwritten on the writer"),
                     }
                 };
-                out.violation(&sig, &format!("{} — after all deltas of '{}' were delivered the replicas serve (pttl, value) {:?}", what, key, served), self.replay());
+                // a node that wrote before it had its own history back may have re-used a stamp: C08's
+                // stated limitation (recovery hands back what was durable), not a claim of C06
+                if why.is_none() && !reads && msgs.iter().any(|(_, m)| self.early.contains(&m.0)) {
+                    out.count("b:excluded:diverged-after-write-before-own-recovery");
+                } else {
+                    out.violation(&sig, &format!("{} — after all deltas of '{}' were delivered the replicas serve (pttl, value) {:?}", what, key, served), self.replay());
+                }
             }
         }
         for h in &self.hs {
@@ -896,6 +997,8 @@ enum St {
     X(usize, &'static str, MRv),
     /// ApplyRecoveredState on node j
     R(usize, &'static str, MRv),
+    /// the actor of node i restarts empty
+    Z(usize),
 }
 
 fn hash_rv(fields: &[(&str, Option<&str>, u64)], r: u64) -> MRv {
@@ -935,6 +1038,12 @@ fn scenarios() -> Vec<(&'static str, usize, Vec<St>, Vec<&'static str>)> {
         ("hash-over-string", 2, vec![C(0, Command::set("x".into(), s("v"))), C(1, hset1("x", "f", "1")), Sync], vec!["x"]),
         ("x:expiry-zero", 2, vec![X(0, "z", lww_rv(Some("v"), 5, 9, false, Some(0)))], vec!["z"]),
         ("x:empty-register", 2, vec![C(0, Command::set("z".into(), s("v"))), X(0, "z", lww_rv(None, 5, 9, false, None))], vec!["z"]),
+        // seeded/C06-own-stamped-delta-skips-clock-update: three writes, the actor restarts empty, its own
+        // deltas come back (WAL replay = apply_remote_deltas), it writes again
+        ("restart-own-deltas-back", 2, vec![C(0, Command::set("k".into(), s("1"))), C(0, Command::set("k".into(), s("2"))), C(0, Command::set("k".into(), s("3"))), Sync,
+            Z(0), V(0, 0), V(0, 1), V(0, 2), C(0, Command::set("k".into(), s("4"))), Sync], vec!["k"]),
+        ("restart-own-hash-deltas-back", 2, vec![C(0, hset1("h", "f", "1")), C(0, hset1("h", "g", "2")), C(1, hset1("h", "f", "9")), Sync,
+            Z(0), V(0, 1), V(0, 0), V(0, 2), C(0, hset1("h", "f", "3")), C(0, Command::HDel("h".into(), vec![s("g")])), Sync], vec!["h"]),
         ("multi-key-del", 2, vec![C(0, Command::set("a".into(), s("1"))), C(0, Command::set("b".into(), s("2"))), Sync, C(0, Command::Del(vec!["a".into(), "b".into()])), Sync], vec!["a", "b"]),
         // ApplyRecoveredState: a checkpoint into a fresh actor, then normal traffic
         ("recover-checkpoint", 2, vec![
@@ -1093,6 +1202,7 @@ async fn part_b(out: &mut Out, rng: &mut Rng, n_random: u64) {
                 St::V(j, idx) => cl.deliver(out, j, idx).await,
                 St::X(j, k, v) => cl.crafted(out, j, k, &v).await,
                 St::R(j, k, v) => cl.recover(out, j, k, &v).await,
+                St::Z(i) => cl.restart(out, i).await,
             }
         }
         let text = cl.hist.join("; ");
@@ -1108,6 +1218,25 @@ async fn part_b(out: &mut Out, rng: &mut Rng, n_random: u64) {
         let probes = r.chance(1, 3);
         let steps = r.range(2, 10);
         for _ in 0..steps {
+            if !cl.sent.is_empty() && r.chance(1, 14) {
+                // a node that has issued something restarts empty, gets its own deltas back (usually
+                // all of them) and at once writes a key it had written before
+                let cand: Vec<usize> = (0..n).filter(|i| cl.sent.iter().any(|m| m.0 == *i)).collect();
+                let i = *r.pick(&cand);
+                cl.restart(out, i).await;
+                let mut own: Vec<usize> = (0..cl.sent.len()).filter(|idx| cl.sent[*idx].0 == i).collect();
+                r.shuffle(&mut own);
+                let full = r.chance(4, 5);
+                for idx in &own {
+                    if full || r.chance(1, 2) {
+                        cl.deliver(out, i, *idx).await;
+                    }
+                }
+                let key = cl.sent[own[0]].1.key.clone();
+                let c2 = if HKEYS.contains(&key.as_str()) && !SKEYS.contains(&key.as_str()) { Command::HSet(key, vec![(s("f"), s(&sval(&mut r)))]) } else { Command::set(key, s(&sval(&mut r))) };
+                cl.client(out, i, c2).await;
+                continue;
+            }
             if !cl.sent.is_empty() && r.chance(1, 3) {
                 let idx = r.below(cl.sent.len() as u64) as usize;
                 let j = r.below(n as u64) as usize;
@@ -1210,6 +1339,61 @@ async fn system_scenarios(out: &mut Out) {
             bad.push(format!("GET {}: A {:?}, B {:?}", k, ga, gb));
         }
     }
+    // multi-key MSET / MGET / EXISTS whose keys live on different shards of the 16 (forwarded by the
+    // C05 builder): `execute` routes them whole to the FIRST key's shard (get_primary_key), the
+    // per-key fan-out of execute_global is never reached
+    {
+        let shard_of = |key: &str| {
+            use std::hash::{Hash, Hasher};
+            let mut h = std::collections::hash_map::DefaultHasher::new();
+            key.hash(&mut h);
+            (h.finish() as usize) % 16
+        };
+        let k1 = "ab".to_string();
+        let k2 = (0..200).map(|i| format!("w{}", i)).find(|k| shard_of(k) != shard_of(&k1)).unwrap_or("w".into());
+        let (c, crx) = mk(3);
+        let (d, _drx) = mk(4);
+        let mut h2: Vec<String> = Vec::new();
+        let int = |r: &RespValue| if let RespValue::Integer(n) = r { Some(*n) } else { None };
+        let r1 = c.execute(Command::Incr(k2.clone())).await;
+        h2.push(format!("C: INCR {} -> {:?}", k2, int(&r1)));
+        let r2 = c.execute(Command::MSet(vec![(k1.clone(), s("5")), (k2.clone(), s("-3"))])).await;
+        h2.push(format!("C: MSET {} 5 {} -3 -> {:?}", k1, k2, r2));
+        let g2 = c.execute(Command::Get(k2.clone())).await;
+        h2.push(format!("C: GET {} -> {:?}", k2, String::from_utf8_lossy(&bulk(&g2))));
+        let mg = c.execute(Command::MGet(vec![k1.clone(), k2.clone()])).await;
+        let singles = vec![c.execute(Command::Get(k1.clone())).await, c.execute(Command::Get(k2.clone())).await];
+        // a third key, on yet another shard than k1, written by a plain SET only
+        let k3 = (0..200).map(|i| format!("x{}", i)).find(|k| shard_of(k) != shard_of(&k1)).unwrap_or("x".into());
+        c.execute(Command::set(k3.clone(), s("z"))).await;
+        let ex = c.execute(Command::Exists(vec![k1.clone(), k3.clone()])).await;
+        let ex1 = int(&c.execute(Command::Exists(vec![k1.clone()])).await).unwrap_or(-1) + int(&c.execute(Command::Exists(vec![k3.clone()])).await).unwrap_or(-1);
+        h2.push(format!("C: MGET {} {} -> {:?}; SET {} z; EXISTS {} {} -> {:?} (single EXISTS sum {})", k1, k2, mg, k3, k1, k3, int(&ex), ex1));
+        // what the peer gets (MSET as the property's SETs would replicate; today nothing is shipped)
+        d.apply_remote_deltas(crx.drain());
+        let dg = d.execute(Command::Get(k2.clone())).await;
+        h2.push(format!("D (peer, after delivery of everything C shipped): GET {} -> {:?}", k2, String::from_utf8_lossy(&bulk(&dg))));
+        let mset_ok = bulk(&g2) == b"-3";
+        let mget_ok = matches!(&mg, RespValue::Array(Some(v)) if v.len() == 2 && bulk(&v[0]) == bulk(&singles[0]) && bulk(&v[1]) == bulk(&singles[1]));
+        let exists_ok = int(&ex) == Some(ex1);
+        out.count(if mset_ok { "b:system:mset-across-shards:holds" } else { "b:system:mset-across-shards:fails" });
+        out.count(if mget_ok { "b:system:mget-across-shards:holds" } else { "b:system:mget-across-shards:fails" });
+        out.count(if exists_ok { "b:system:exists-across-shards:holds" } else { "b:system:exists-across-shards:fails" });
+        out.case("B:system:multi-key-across-shards", true);
+        for (ok, what) in [(mset_ok, "mset"), (mget_ok, "mget"), (exists_ok, "exists")] {
+            if !ok {
+                out.violation(
+                    &format!("C06:front-end:multi-key-routed-by-first-key:{}", what),
+                    "ReplicatedShardedState::execute hands a multi-key MSET / MGET / EXISTS whole to the FIRST key's shard: an acknowledged MSET pair is not readable on the node that accepted it, MGET / EXISTS do not answer what single-key reads of the same node answer",
+                    json!({"history": h2.clone()}),
+                );
+            }
+        }
+        // after the repair MSET ships one delta per pair: the peer must serve the pair too
+        if mset_ok && bulk(&dg) != b"-3" {
+            out.violation("C06:front-end:mset-not-replicated-per-key", "MSET is executed per key but its pairs do not reach the peer", json!({"history": h2}));
+        }
+    }
     out.count(if bad.is_empty() { "b:system:multi-key-del:holds" } else { "b:system:multi-key-del:fails" });
     out.case("B:system:multi-key-del", true);
     if !bad.is_empty() {
@@ -1225,6 +1409,7 @@ pub fn run(a: &Args) {
     part_a(&mut out, &mut Rng::new(0xC06), Some(2));
     part_a(&mut out, &mut Rng::new(0xC06), Some(3));
     part_a(&mut out, &mut Rng::new(0xC06), Some(4));
+    part_a(&mut out, &mut Rng::new(0xC06), Some(5));
     for _ in 0..a.n {
         let mut r = rng.fork();
         part_a(&mut out, &mut r, None);
@@ -1232,5 +1417,7 @@ pub fn run(a: &Args) {
     let rt = tokio::runtime::Builder::new_current_thread().enable_all().build().unwrap();
     let nb = (a.n * 2).max(40);
     rt.block_on(part_b(&mut out, &mut rng, nb));
+    rt.block_on(crate::c06msg::part_m(&mut out, &mut rng, (a.n / 4).max(60)));
+    out.extra.insert("audit".into(), crate::c06msg::audit());
     out.finish("case (part A) = one cluster history: 2..4 real ShardReplicaStates, 4..40 events (local SET[PX]/DEL/HSET/HDEL (1..6 fields, repetitions) on 3 colliding keys, a third of the local ops followed by write-after-receive (the delta reaches another node, which at once writes one of the touched registers); deliveries of arbitrary earlier deltas to arbitrary nodes incl. duplicates), then usually delivery of everything missing in random order; per key the flags delivered/compat/agree/agreeexp are compared with the model; non-trivial iff some key has ≥ 2 deltas and is fully delivered. Case (part B) = one history on 2..3 real ReplicatedShardActors: 2..10 client commands (SET with NX/XX/GET/EX/PX/KEEPTTL/EXAT/PXAT, GETSET, INCR/DECR/INCRBY/DECRBY, APPEND, DEL of 1..3 keys, HSET/HDEL/HINCRBY, on keys shared between string and hash commands; one third of the histories also MSET/SETNX/GETDEL/EXPIRE/PERSIST/RENAME/RPUSH/MSETNX/FLUSHALL) interleaved with deliveries of arbitrary earlier deltas, then usually delivery of everything missing in random order with duplicates; every step is compared with the Lean glue model (reply, served keyspace, delta / merged value, supported-fragment verdict), then GET/EXISTS/HGETALL/TTL on every node and the per-key flags delivered/kind/agree/reads; non-trivial iff ≥ 2 deltas and complete delivery; plus 23 fixed scenarios and a sweep of every Command variant a shard actor can receive (GA lines for commands outside the model). Distinct by history text");
 }
